@@ -81,6 +81,7 @@ def run(ctx: Context) -> None:
     rep.rule("C18.R2", "primitive pairs / backend twins agree on method names and parameters; mock twins AST-equal after de-async")
     rep.rule("C18.R3", "every name imported by a _sync module exists in its source module")
     rep.rule("C18.R4", "every backend implementation has exactly the base interface's method signatures")
+    rep.rule("C18.R6", "sync and async backends map the same failure kind (timeout / broken connection) of the same operation to the same httpcore exception")
     rep.rule("C18.R5", "hand-written sync/async method pairs of shared classes (Response, ByteStream, Trace) are equal after de-async, string literals aside")
 
     adir = os.path.join(prog.root, "httpcore", "_async")
@@ -204,6 +205,8 @@ def run(ctx: Context) -> None:
 
     # R5 hand-written sync/async method pairs inside shared modules (not produced by the translator)
     _shared_pairs(ctx)
+    # R6 the real backends report the same httpcore class for the same kind of failure
+    _backend_agreement(ctx)
 
     # R3 imports of the sync tree resolve
     nimp = 0
@@ -291,3 +294,41 @@ def _shared_pairs(ctx: Context) -> None:
                         detail = f"{c.name}.{sn} differs from de-asynced {c.name}.{an}: async `{ast.unparse(d[1])[:100]}` vs sync `{ast.unparse(d[2])[:100]}` - the two APIs no longer behave alike"
                 rep.ob("C18.R5", f"shared|{c.name}.{sn}|pair", ok, sm.where, detail)
     rep.floor("C18.R5", "hand-written sync/async method pairs in shared modules", npairs, 7)
+
+
+def _backend_agreement(ctx: Context) -> None:
+    from .. import boundary as B
+    from ..escape import Ctx as ECtx
+
+    rep = ctx.rep
+    esc = ctx.escape
+    kinds = {"timeout": {"anyio": "TimeoutError", "trio": "trio.TooSlowError", "sync": "socket.timeout"},
+             "broken": {"anyio": "anyio.BrokenResourceError", "trio": "trio.BrokenResourceError", "sync": "OSError"}}
+    table: dict[tuple[str, str], dict[str, str]] = {}
+    for be, modname in (("anyio", "httpcore._backends.anyio"), ("trio", "httpcore._backends.trio"), ("sync", "httpcore._backends.sync")):
+        for c in ctx.prog.module(modname).classes.values():
+            if c.name.startswith("TLSinTLS"):
+                continue
+            for f in c.methods.values():
+                if f.name not in ("read", "write", "start_tls", "connect_tcp", "connect_unix_socket"):
+                    continue
+                pairs = None
+                for n in ast.walk(f.node):
+                    if isinstance(n, (ast.With, ast.AsyncWith)):
+                        for it in n.items:
+                            p_ = esc._map_of(it, ECtx(f))
+                            if p_ is not None:
+                                pairs = p_
+                if pairs is None:
+                    continue
+                for kind, src in kinds.items():
+                    cls = src[be]
+                    got = next((v for k, v in pairs if esc.is_sub(cls, k)), cls)
+                    table.setdefault((f.name, kind), {})[be] = got
+    n = 0
+    for (op, kind), by in sorted(table.items()):
+        n += 1
+        vals = set(by.values())
+        rep.ob("C18.R6", f"backend|{op}|{kind}", len(vals) == 1 and len(by) >= 2, "httpcore/_backends/", f"{op} / {kind}: {by}" + ("" if len(vals) == 1 else
+               " - the sync and async APIs raise different exception classes for the same failure"))
+    rep.floor("C18.R6", "backend operation x failure kind cells", n, 8)
